@@ -58,12 +58,13 @@ def run(ctx, chk):
     nm = 0
     sizes = {n_: s["size"] for n_, s in prog.structs.items() if "size" in s}
     for f in prog.lib_funcs():
-        for k, pa in enumerate(cache.get(f.name)):
+        # static helpers are inlined so that a destination obtained through one is still traced to its allocation
+        for k, pa in enumerate(cache.get(f.name, inline_static=True)):
             for e in pa.events:
                 if e.kind == "call" and e.callee in ("memcpy", "memmove", "memset", "strcpy", "strncpy", "strcat"):
                     nm += 1
                     if e.callee != "memcpy":
-                        chk.ob("C01.memcpy", "%s: %s" % (f.name, e.callee), False, e.ins.loc(), fn=f.name, key="%s:%s" % (f.name, e.callee),
+                        chk.ob("C01.memcpy", "%s: %s" % (f.name, e.callee), False, e.ins.loc(), fn=f.name, key="%s:%s:%s" % (f.name, e.fn.name, e.callee),
                                detail="bulk write primitive outside the two recognised shapes")
                         continue
                     dst, src, n_ = e.args[0], e.args[1], e.args[2]
@@ -81,7 +82,7 @@ def run(ctx, chk):
                             w = dst[3][0]
                             ok = dst[1] == BUF and pa.st.rel_ge(("op", "sub", "i64", SIZE, w), n_, upto=e.nfacts)
                             why = "serializer window: destination buffer+w guarded by buffer_size - w >= length: %s" % ok
-                    chk.ob("C01.memcpy", "%s path %d: memcpy" % (f.name, k), ok, e.ins.loc(), fn=f.name, key="%s:memcpy:%d" % (f.name, e.ins.id),
+                    chk.ob("C01.memcpy", "%s path %d: memcpy" % (f.name, k), ok, e.ins.loc(), fn=f.name, key="%s:memcpy:%s:%d" % (f.name, e.fn.name, e.ins.id),
                            detail="" if ok else (why or "destination %s is neither a fresh block nor the serializer window" % DR.fmt_term(dst)),
                            path=pa.block_lines() if not ok else None)
                 elif e.kind in ("memcpy", "memset"):
